@@ -164,7 +164,7 @@ def main(ctx):
     base += [{"config": {"strategy": s, "integrand": k, "norm": "inf", "tol": tol, "max_evaluations": mx, "reference": False}}
              for s in (["dw", "es", "cell"] if q else strategies) for k in kinds[:2] for tol, mx in noref]
     # a hierarchical high-order local grid (three splits before an extend), with and without periodic from-scratch recalculation
-    base += [{"config": {"strategy": s, "integrand": "peak", "norm": "inf", "tol": 1e-9, "max_evaluations": 300}} for s in ("es_lag", "es_lag_recalc")]
+    base += [{"config": {"strategy": s, "integrand": "peak", "norm": "inf", "tol": 1e-9, "max_evaluations": mx}} for s, mx in (("es_lag", 300), ("es_lag_recalc", 700))]
     if not q:
         base += [{"config": {"strategy": s, "integrand": k, "norm": "inf", "tol": 1e-9, "max_evaluations": 700}} for s in ("es_lag", "es_lag_recalc", "es_recalc") for k in ("peak", "vec")]
     ctx.determinism_probe(dict(config=dict(base[0]["config"], stop_at=1, variant="continue")))
